@@ -153,7 +153,8 @@ func Load(cfgName string) (*Program, error) {
 	if nerr > 0 {
 		return p, fmt.Errorf("%d load/type errors: %s", nerr, strings.Join(p.Problems, "; "))
 	}
-	prog, spkgs := ssautil.Packages(pkgs, ssa.BuilderMode(0))
+	// generic functions are analysed as their instantiations (monomorphised bodies with statically resolved calls)
+	prog, spkgs := ssautil.Packages(pkgs, ssa.InstantiateGenerics)
 	p.Prog = prog
 	for i, sp := range spkgs {
 		if sp == nil {
@@ -225,6 +226,29 @@ func Load(cfgName string) (*Program, error) {
 			}
 		}
 	}
+	// instantiations of generic functions and of methods of generic types belong to the package of their origin
+	var insts []*ssa.Function
+	for fn := range ssautil.AllFunctions(prog) {
+		if o := fn.Origin(); o != nil && o != fn && (o.Pkg == p.Root || o.Pkg == p.Field) {
+			insts = append(insts, fn)
+		}
+	}
+	sort.Slice(insts, func(i, j int) bool { return insts[i].String() < insts[j].String() })
+	for _, fn := range insts {
+		if fn.Pkg == nil {
+			fn.Pkg = fn.Origin().Pkg
+		}
+		add(fn)
+	}
+	// the uninstantiated generic bodies are not code that runs
+	kept := p.Funcs[:0]
+	for _, f := range p.Funcs {
+		if isGenericOrigin(f) {
+			continue
+		}
+		kept = append(kept, f)
+	}
+	p.Funcs = kept
 	sort.SliceStable(p.Funcs, func(i, j int) bool { return ShortName(p.Funcs[i]) < ShortName(p.Funcs[j]) })
 	for _, f := range p.Funcs {
 		p.ByName[ShortName(f)] = f
@@ -531,4 +555,24 @@ func ShortName0(sp *ssa.Package) string {
 		return "field."
 	}
 	return ""
+}
+
+// isGenericOrigin: a generic function or method as declared (with type parameters not yet bound).
+func isGenericOrigin(f *ssa.Function) bool {
+	if f.Parent() != nil {
+		return isGenericOrigin(f.Parent())
+	}
+	if f.TypeParams().Len() > 0 && len(f.TypeArgs()) == 0 {
+		return true
+	}
+	if recv := f.Signature.Recv(); recv != nil && len(f.TypeArgs()) == 0 {
+		t := recv.Type()
+		if pt, ok := t.(*types.Pointer); ok {
+			t = pt.Elem()
+		}
+		if n, ok := t.(*types.Named); ok && n.TypeParams().Len() > 0 && n.TypeArgs().Len() == 0 {
+			return true
+		}
+	}
+	return false
 }
